@@ -350,7 +350,7 @@ def check_step(lst, direction, start, violation, where):
     return True
 
 
-def check_vm_step(ls, direction, start, violation, where):
+def check_vm_step(ls, direction, start, violation, where, known=((), ())):
     """The VM's own stepping (DNEXT / DNEXTM / DISC / DISCM) from `start`,
     present or since removed, over lights, group names and member lists."""
     from bardolph.vm.vm_discover import VmDiscover
@@ -374,13 +374,32 @@ def check_vm_step(ls, direction, start, violation, where):
     for g in ls.get_location_names():
         cases.append((Operand.LOCATION, g,
                       sorted(ls.get_location_lights(g))))
+    # a group or location that has vanished altogether (all members expired
+    # or moved) while an iteration over its members is in progress: nothing
+    # remains, the iteration ends
+    for g in known[0]:
+        if g not in ls.get_group_names():
+            cases.append((Operand.GROUP, g, []))
+    for g in known[1]:
+        if g not in ls.get_location_names():
+            cases.append((Operand.LOCATION, g, []))
     for operand, member_of, ref in cases:
         reg.operand = operand
         for probe in {start} | set(ref):
-            if member_of is None:
-                vd.dnext(probe)
-            else:
-                vd.dnextm(member_of, probe)
+            try:
+                if member_of is None:
+                    vd.dnext(probe)
+                else:
+                    vd.dnextm(member_of, probe)
+            except Exception as ex:
+                violation('vm-stepping-raises',
+                          '{}: VM {} step from {!r} over {} raised {}: {}'
+                          .format(where, direction, probe,
+                                  'members of ' + repr(member_of) +
+                                  (' (vanished)' if not ref else '')
+                                  if member_of else operand.name,
+                                  type(ex).__name__, ex))
+                return False
             got = None if reg.result is Operand.NULL else reg.result
             want = nearest(ref, probe)
             if got != want:
@@ -516,6 +535,7 @@ def _run_api(sim, sc, steps, violation, probe, info):
     model = Model(sc['gc'])
     ever = set()
     gone = set()
+    seen_names = [set(), set()]     # groups, locations ever in the directory
     for si, step in enumerate(steps):
         where = 'after step {} {}'.format(si, step)
         kind = step[0]
@@ -581,9 +601,12 @@ def _run_api(sim, sc, steps, violation, probe, info):
                            violation, where + ' group ' + g)
             check_step(ls.get_group_names(), step[1], 'G2', violation,
                        where + ' group names')
-            check_vm_step(ls, step[1], step[2], violation, where)
+            check_vm_step(ls, step[1], step[2], violation, where,
+                          (sorted(seen_names[0]), sorted(seen_names[1])))
         elif kind == 'walk':
             _walks(ls, step, violation, where)
+        seen_names[0].update(ls.get_group_names())
+        seen_names[1].update(ls.get_location_names())
         if not check_invariants(ls, model, violation, where):
             return
         after = (model.names(), model.groups())
@@ -654,6 +677,7 @@ def _script_iteration(sim, ls, model, violation, probe, net):
 
 def _run_wire(sim, sc, steps, violation, probe, info, threaded):
     from bardolph.controller import light_set as light_set_mod
+    seen_names = [set(), set()]     # groups, locations ever in the directory
     pop0 = steps[0][1]
     n = sc['n_bulbs']
     specs = []
@@ -761,9 +785,12 @@ def _run_wire(sim, sc, steps, violation, probe, info, threaded):
         elif kind == 'step':
             check_step(ls.get_light_names(), step[1], step[2], violation,
                        where)
-            check_vm_step(ls, step[1], step[2], violation, where)
+            check_vm_step(ls, step[1], step[2], violation, where,
+                          (sorted(seen_names[0]), sorted(seen_names[1])))
         elif kind == 'walk':
             _walks(ls, step, violation, where)
+        seen_names[0].update(ls.get_group_names())
+        seen_names[1].update(ls.get_location_names())
         if not check_invariants(ls, model, violation, where):
             return
         after = (model.names(), model.groups())
